@@ -541,6 +541,10 @@ class Interp:
                 if expr.id in scope.params:
                     if scope is f and expr.id == "cls" and f.is_classmethod() and fr.callee.cls is not None:
                         return frozenset([ClassVal(fr.callee.cls)])
+                    if scope is f and fr.V is not None and p._with_facts and p.type_of(fr.module, expr) == PROTOCOL_TYPE:
+                        # a parameter typed as the protocol object, in the context of version V: that version's module
+                        # (the same reading `_attr_of` gives `protocol.X`)
+                        return frozenset([ModVal(self.vmod(fr.V))])
                     return U
                 la = self.local_assigns(scope)
                 if expr.id in la:
@@ -1377,6 +1381,12 @@ class Interp:
                 if out is not None:
                     return out
         # 3. mypy fact
+        if fact is None and isinstance(fn, ast.Attribute) and isinstance(fn.value, ast.Name) and fr.func.positional_params and fn.value.id == fr.func.positional_params[0] and fn.value.id in ("self", "cls"):
+            # a call the analysis wrote itself (e.g. the callback of a desugared exit stack): a method of the own class
+            runcls = fr.callee.cls or fr.func.cls
+            meth = runcls.find_method(fn.attr) if runcls is not None else None
+            if meth is not None:
+                return [Target("repo", frame=self.bind_call(self.make_callee(meth, runcls), call, fr, fr.V, facts=self._facts_ctx))]
         if fact is None:
             return [Target("unknown", note=f"no type fact for call {norm(call)[:80]}")]
         full, kind, _ = fact
